@@ -7,7 +7,8 @@ REPO = "/repo"
 OUT = "/verif/mutants"
 M = [
  # name, file, old, new, properties expected to be violated
- ("cksum-skip-first-byte", "src/sentence.rs", "sentence.iter().fold(0u8, |acc, &item| acc ^ item)", "sentence.iter().skip(1).fold(sentence[0] ^ b'A' ^ b'A', |acc, &item| acc ^ item)", "none (equivalent: control)"),
+ ("control-cksum-fold-reversed", "src/sentence.rs", "sentence.iter().fold(0u8, |acc, &item| acc ^ item)", "sentence.iter().rev().fold(0u8, |acc, &item| item ^ acc)", "none (equivalent rewrite: control, must NOT be reported) C02 C08 C07 C01"),
+ ("cksum-first-byte-indexed", "src/sentence.rs", "sentence.iter().fold(0u8, |acc, &item| acc ^ item)", "sentence.iter().skip(1).fold(sentence[0], |acc, &item| acc ^ item)", "C01 C02 C08 (index out of bounds on an empty body: '!*00')"),
  ("cksum-low-nibble", "src/sentence.rs", "if expected_checksum != received_checksum {", "if expected_checksum & 0x7f != received_checksum & 0x7f {", "C02 C08"),
  ("cksum-bypass-on-continuation", "src/sentence.rs", "        Self::check_checksum(data, checksum)?;\n", "        if ais_sentence.fragment_number <= 1 {\n            Self::check_checksum(data, checksum)?;\n        }\n", "C02"),
  ("cksum-error-fields-swapped", "src/sentence.rs", "                expected: expected_checksum,\n                found: received_checksum,", "                expected: received_checksum,\n                found: expected_checksum,", "C02"),
@@ -21,7 +22,7 @@ M = [
  ("state-update-before-seq-check", "src/sentence.rs", "        if self.message_id != ais_sentence.message_id {\n            return Err(\"Message ID out of sequence\".into());\n        }\n        if ais_sentence.fragment_number.checked_sub(self.fragment_number) != Some(1) {\n            return Err(\"Fragment numbers out of sequence\".into());\n        }", "        if self.message_id != ais_sentence.message_id {\n            return Err(\"Message ID out of sequence\".into());\n        }\n        let previous = self.fragment_number;\n        self.fragment_number = ais_sentence.fragment_number;\n        if ais_sentence.fragment_number.checked_sub(previous) != Some(1) {\n            return Err(\"Fragment numbers out of sequence\".into());\n        }", "C06 C17"),
  ("id-compare-dropped", "src/sentence.rs", "        if self.message_id != ais_sentence.message_id {\n            return Err(\"Message ID out of sequence\".into());\n        }\n", "        if self.message_id.is_some() && ais_sentence.message_id.is_some() && self.message_id != ais_sentence.message_id {\n            return Err(\"Message ID out of sequence\".into());\n        }\n", "C06"),
  ("dispatch-7-13-swapped", "src/messages/mod.rs", "        7 => Ok(AisMessage::BinaryAcknowledgeMessage(\n            binary_acknowledge::BinaryAcknowledge::parse(unarmored)?,\n        )),", "        7 => Ok(AisMessage::SafetyRelatedAcknowledgment(\n            safety_related_acknowledgment::SafetyRelatedAcknowledge::parse(unarmored)?,\n        )),", "C09"),
- ("dispatch-accepts-type-0", "src/messages/mod.rs", "        1..=3 => Ok(AisMessage::PositionReport(", "        0..=3 => Ok(AisMessage::PositionReport(", "C09"),
+ ("control-dispatch-accepts-type-0", "src/messages/mod.rs", "        1..=3 => Ok(AisMessage::PositionReport(", "        0..=3 => Ok(AisMessage::PositionReport(", "none (equivalent: parse_radio still rejects type 0; control, must NOT be reported) C09 C14 C01"),
  ("acks-max-3", "src/messages/binary_acknowledge.rs", "many_m_n(1, 4, Acknowledgement::parse)", "many_m_n(1, 3, Acknowledgement::parse)", "C14"),
  ("t16-second-station-gt52", "src/messages/assignment_mode_command.rs", "if remaining_bits >= 52 {", "if remaining_bits > 52 {", "C14"),
  ("t8-data-off-by-one", "src/messages/binary_broadcast_message.rs", "        #[cfg(any(feature = \"std\", feature = \"alloc\"))]\n        let data_owned = data.0.into();", "        #[cfg(any(feature = \"std\", feature = \"alloc\"))]\n        let data_owned = data.0[..data.0.len() - (data.0.len() > 100) as usize].into();", "C15"),
